@@ -9,7 +9,7 @@
 import json, os, shutil, subprocess, sys, time
 
 ROOT = os.path.dirname(os.path.abspath(__file__))
-SCRATCH = "/tmp/seedconfirm/wt"
+SCRATCH = os.environ.get("SEED_SCRATCH", "/tmp/seedconfirm/wt")
 
 
 def sh(cmd, cwd=None, timeout=1800):
@@ -25,7 +25,7 @@ def confirm(pid, x, base="/tmp/seed", tag=""):
     src = f"{base}/{pid}/out/{x}"
     patch = os.path.join(src, "patch.diff")
     demo = os.path.join(src, "demo.rs")
-    os.makedirs("/tmp/seedconfirm", exist_ok=True)
+    os.makedirs(os.path.dirname(SCRATCH), exist_ok=True)
     if not os.path.isdir(SCRATCH):
         rc, out = sh(f"git -C /repo worktree add -q --detach {SCRATCH} HEAD")
         assert rc == 0, out
